@@ -137,10 +137,30 @@ def extra_axioms_for(ob):
     return list(ob.extra.get('axioms', [])) if ob.extra else []
 
 
+_sk = [0]
+
+
+def skolemize_goal(g):
+    """A goal `forall x. P(x)` is valid iff P(c) is for a fresh constant c
+    (also under conjunctions)."""
+    if z3.is_quantifier(g) and g.is_forall():
+        vs = []
+        for i in range(g.num_vars()):
+            _sk[0] += 1
+            vs.append(z3.Const('sk!%d_%s' % (_sk[0], g.var_name(i)),
+                               g.var_sort(i)))
+        return skolemize_goal(z3.substitute_vars(g.body(), *reversed(vs)))
+    if z3.is_and(g):
+        return z3.And(*[skolemize_goal(c) for c in g.children()])
+    if z3.is_implies(g):
+        return z3.Implies(g.children()[0], skolemize_goal(g.children()[1]))
+    return g
+
+
 def build_query(ob, negate=True):
     ab = Abstraction()
     hyps = [ab.abstract(h) for h in ob.hyps]
-    goal = ab.abstract(ob.goal)
+    goal = ab.abstract(skolemize_goal(ob.goal) if negate else ob.goal)
     extra = [ab.abstract(a) for a in extra_axioms_for(ob)]
     fs = hyps + extra + ab.axioms()
     fs.append(z3.Not(goal) if negate else goal)
